@@ -1,5 +1,5 @@
 """Shared world builders and the suite runner."""
-import core
+import core, collide
 from core import World, hx, Line, parse_fs
 from gen import Gen, Call, cfg_line, mode_line
 
@@ -250,6 +250,14 @@ def snap_file_suffix(cfgline):
 def mutate_text(g, b):
     """a text different from b, by one small edit; returns (new, tag)"""
     r = g.r
+    ls = b.split(b'\n')
+    tw = [(i, t) for i, t in ((i, collide.partner(r, l)) for i, l in enumerate(ls)) if t]
+    big = [x for x in tw if len(ls[x[0]]) >= 3]       # '' / ' ' / 'x' have twins too, and are everywhere
+    if (big and r.random() < 0.5) or (tw and r.random() < 0.08):
+        # swap one line for a line that a coarser-than-bytes comparison takes for the same
+        i, (new, cls) = r.choice(big or tw)
+        if new != ls[i]:
+            return b'\n'.join(ls[:i] + [new] + ls[i + 1:]), 'twin-line:' + cls
     for _ in range(20):
         k = r.randrange(12)
         ls = b.split(b'\n')
